@@ -168,6 +168,9 @@ let () =
             | "rp" -> rp_case f
             | "cv" -> cv_case f
             | "mqx" -> Explore.mqx_case f
+            | "tpx" -> Explore.tpx_case f
+            | "tp" -> Explore.tpx_case [| "tpx"; (if Array.exists (fun x -> x = "cfg=a") f then "a" else "f"); f.(1) |]
+            | "bs" -> Explore.bs_case f
             | x when String.length x > 5 && String.sub x 0 5 = "spec:" ->
                 spec_case (String.sub x 5 (String.length x - 5)) f
             | x -> "UNKNOWN-EXECUTOR " ^ x
